@@ -107,6 +107,7 @@ def restore_stubs():
 
 def reset_between_paths():
     restore_stubs()
+    close_screens()
     WARN_POLICY["widget"] = "assume"
     _AFlow.MAX_ROWS = None
     try:
@@ -507,7 +508,22 @@ def make_screen(I=None):
         def get_cols_rows(self):
             return (80, 24)
 
-    return StubScreen()
+    scr = StubScreen()
+    _screens.append(scr)
+    return scr
+
+
+_screens = []
+
+
+def close_screens():
+    while _screens:
+        s_ = _screens.pop()
+        for sock in (s_._resize_pipe_rd, s_._resize_pipe_wr):
+            try:
+                sock.close()
+            except OSError:
+                pass
 
 
 class ACursorLeaf(urwid.Widget):
